@@ -182,5 +182,5 @@ for _p in ("C05", "C10", "C11", "C12"):
 
 # engine B under libFuzzer: structure-aware decoder -> actor program, fork per case with the coverage counters shared with the child
 for _p in ["C01", "C02", "C03", "C04", "C07", "C08", "C09", "C13", "C15", "C16", "C17", "C19", "C20"]:
-    CHECKS[_p]["stages"].append(F("fuzz_actor", 40000, env={"FUZZ_PROP": _p}, max_len=512, timeout=90, seed_corpus=["harness/actor/fuzz_corpus"]))
+    CHECKS[_p]["stages"].append(F("fuzz_actor", 40000, env={"FUZZ_PROP": _p}, max_len=512, timeout=90, seed_corpus=["harness/actor/fuzz_corpus"], extra_args=["-len_control=0"]))
     META[_p]["technique"] += " + coverage-guided libFuzzer campaign over byte-decoded actor programs with the same model and rules (thorough tier)"
